@@ -108,9 +108,11 @@ def run_bytes(spec):
 
 
 # ------------------------------------------------------------------ text / json round trip
+# JSON can carry lone surrogates (escaped); only high ones here, so that no two of them ever form a pair
+SURROGATE_TEXT = st.text(st.sampled_from("a\ud83dé\ud800"), max_size=5)
 JSONABLE = st.recursive(
     st.one_of(st.none(), st.booleans(), st.integers(-2**70, 2**70),
-              st.floats(allow_nan=False, allow_infinity=False), ANYTEXT),
+              st.floats(allow_nan=False, allow_infinity=False), ANYTEXT, SURROGATE_TEXT),
     lambda ch: st.one_of(st.lists(ch, max_size=4), st.dictionaries(ANYTEXT, ch, max_size=4)),
     max_leaves=12)
 
@@ -213,6 +215,10 @@ def run_decode(spec):
         got2 = UnicodeError
     if got2 != want:
         vs.append(V("as_text-chunking", "iter_text charset=%s" % eff, "iter_text differs: %r vs %r" % (got2, want)))
+    # using a content (decoding it) must not change what it is equal to
+    twin = Content(ContentType("text", "plain", dict(params)), lambda: list(chunks))
+    if not (c == twin and twin == c) or c.content_type != ContentType("text", "plain", dict(params)):
+        vs.append(V("eq", "after-as_text", "a content that has been decoded no longer equals a structurally equal, unused one"))
     nb = Content(ContentType("application", "octet-stream"), lambda: list(chunks))
     try:
         nb.iter_text()
@@ -224,6 +230,53 @@ def run_decode(spec):
                              "kind=" + spec["kind"], "cs=%s" % cs,
                              "undecodable" if want is UnicodeError else "decodable"],
                 {"chunks": chunks})
+
+
+# ------------------------------------------------------------------ two decodes in progress at once
+@st.composite
+def s_interleaved(draw):
+    cs = draw(st.sampled_from(["utf8", "utf-8", "utf-16", "gb18030", "shift_jis", None]))
+    texts = [draw(ANYTEXT), draw(ANYTEXT)]
+    datas = []
+    for t in texts:
+        try:
+            datas.append(t.encode(cs or "latin-1"))
+        except UnicodeError:
+            datas.append("".join(ch for ch in t if ord(ch) < 0x80).encode(cs or "latin-1"))
+    return {"charset": cs, "datas": datas, "cuts": [draw(st.lists(st.integers(0, 12), max_size=5)) for _ in range(2)],
+            "order": draw(st.lists(st.integers(0, 1), max_size=14))}
+
+
+def run_interleaved(spec):
+    from testtools.content import Content
+    from testtools.content_type import ContentType
+    vs = []
+    cs = spec["charset"]
+    params = {} if cs is None else {"charset": cs}
+    contents = [Content(ContentType("text", "plain", dict(params)), lambda ch=_cut(d, c): list(ch)) for d, c in zip(spec["datas"], spec["cuts"])]
+    its = [c.iter_text() for c in contents]
+    out = ["", ""]
+    done = [False, False]
+    order = list(spec["order"]) + [0, 1] * 20
+    try:
+        for k in order:
+            if done[k]:
+                continue
+            try:
+                out[k] += next(its[k])
+            except StopIteration:
+                done[k] = True
+            if all(done):
+                break
+    except UnicodeError as e:
+        vs.append(V("as_text-chunking", "interleaved-raises", "decoding two contents side by side raised %r" % (e,)))
+        return Case(vs, True, ["raised"])
+    for k in (0, 1):
+        want = spec["datas"][k].decode(cs or "ISO-8859-1")
+        if done[k] and out[k] != want:
+            vs.append(V("as_text-chunking", "interleaved", "content %d decoded as %r while another decode was in progress, whole decode gives %r" % (k, out[k], want)))
+    inside = any(_cut_inside_char(d, c, cs or "ISO-8859-1") for d, c in zip(spec["datas"], spec["cuts"]))
+    return Case(vs, inside, ["cut-inside-char" if inside else "boundaries", "cs=%s" % cs])
 
 
 # ------------------------------------------------------------------ stream / file
@@ -428,6 +481,10 @@ def run_ct(spec):
     other = ContentType(spec["type"], spec["subtype"] + "x", dict(spec["params"]))
     if ct == other:
         vs.append(V("ct-roundtrip", "eq-subtype", "content types with different subtypes compare equal"))
+    back.parameters["x-added-by-caller"] = "1"          # what a caller does with one parse result ...
+    again = _make_content_type(text)
+    if again != ct:                                      # ... must not show up in the next one
+        vs.append(V("ct-roundtrip", "parse-results-shared", "a second parse of %r gives %r after the first result was modified" % (text, again.parameters)))
     if _make_content_type(None) != ContentType("application", "octet-stream"):
         vs.append(V("ct-roundtrip", "default", "default mime type is not application/octet-stream"))
     return Case(vs, len(spec["params"]) >= 2,
@@ -493,12 +550,13 @@ def run_snap(spec):
 def subchecks(tier):
     q = tier == "quick"
     return [
-        Sub("bytes", run_bytes, s_bytes_case(), 1500 if q else 100000),
+        Sub("bytes", run_bytes, s_bytes_case(), 1000 if q else 100000),
         Sub("text_json_roundtrip", run_text_rt,
-            st.fixed_dictionaries({"text": ANYTEXT, "data": JSONABLE}), 1500 if q else 100000),
+            st.fixed_dictionaries({"text": ANYTEXT, "data": JSONABLE}), 1000 if q else 100000),
         Sub("as_text_chunking", run_decode, s_decode_case(), 3000 if q else 300000),
-        Sub("stream_file", run_stream, s_stream_case(), 2500 if q else 200000),
-        Sub("content_type_roundtrip", run_ct, s_ct_case(), 2500 if q else 200000),
+        Sub("interleaved_decoding", run_interleaved, s_interleaved(), 1000 if q else 60000),
+        Sub("stream_file", run_stream, s_stream_case(), 2000 if q else 200000),
+        Sub("content_type_roundtrip", run_ct, s_ct_case(), 2000 if q else 200000),
         Sub("snapshots", run_snap, s_snap_case(), 1000 if q else 60000),
         Sub("content_type_fuzz", run_ct, custom=fuzz_custom("props.c16", "content_type_roundtrip", "testtools.testresult.real,testtools.content_type", 30000),
             note="atheris/libFuzzer coverage-guided campaign over ContentType -> MIME string -> _make_content_type (thorough only)"),
